@@ -80,6 +80,7 @@ pub fn model(tier: Tier) -> Hist {
     alpha.collect = false;
     alpha.bankruptcy = false;
     alpha.transfer = true;
+    alpha.retag = true;
     alpha.close_account = true;
     alpha.max_clock_devs = 0;
     alpha.max_price_devs = 0;
